@@ -88,6 +88,9 @@ func (e *Engine) findAuthGuard(h *Handler) *authGuard {
 		if !ok || (ci.Op != "==" && ci.Op != "!=") {
 			continue
 		}
+		if foldingCompare(ci) {
+			continue // a case-insensitive comparison accepts strings other than the authority (K-C16-1)
+		}
 		var keeperSide ssa.Value
 		if isReqField(ci.X, h.ReqPar, "Authority") {
 			keeperSide = ci.Y
@@ -154,7 +157,7 @@ func (e *Engine) authChecker(H *ssa.Function, i int) (ssa.Value, bool) {
 			continue
 		}
 		ci, ok := NormCond(Guard{Cond: iff.Cond, Pol: true, If: iff})
-		if !ok || (ci.Op != "==" && ci.Op != "!=") || ci.X == nil || ci.Y == nil {
+		if !ok || (ci.Op != "==" && ci.Op != "!=") || ci.X == nil || ci.Y == nil || foldingCompare(ci) {
 			continue
 		}
 		var keeperSide ssa.Value
@@ -619,3 +622,21 @@ func (e *Engine) protoRoutedAuthorityMsgs() []string {
 }
 
 var _ = types.Typ
+
+
+// foldingCompare: the equality is decided after case folding (strings.EqualFold, or operands passed through
+// ToLower / ToUpper): strings that differ from the authority compare equal.
+func foldingCompare(ci CmpInfo) bool {
+	if ci.Call != nil && callName(ci.Call) == "EqualFold" {
+		return true
+	}
+	for _, v := range []ssa.Value{ci.X, ci.Y} {
+		if c, ok := stripConv(v).(*ssa.Call); ok {
+			switch callName(c) {
+			case "ToLower", "ToUpper", "ToTitle", "Title":
+				return true
+			}
+		}
+	}
+	return false
+}
